@@ -35,6 +35,8 @@ pub struct Case {
     pub gain_shift: f64,
     /// linear output gain of the vocoder during the measurement (the response is divided by it)
     pub volume: f64,
+    /// the vocoder's log-gain flag: it belongs to the LSP family and must not matter here
+    pub log_gain_flag: bool,
 }
 
 pub const RATES: &[usize] = &[16000, 8000, 22050, 44100, 48000, 96000];
@@ -135,11 +137,11 @@ impl Prop for MlsaSpectrum {
         let cepstrum = gen_cepstrum(t, len, alpha, target_shape);
         let gain_shift = if t.chance(0.5) { t.uniform(-6.0, 6.0) } else { t.uniform(-35.0, 6.0) };
         let volume = if t.chance(0.6) { 1.0 } else { t.log_uniform(0.05, 20.0) };
-        Case { rate, alpha, target_shape, cepstrum, gain_shift, volume }
+        Case { rate, alpha, target_shape, cepstrum, gain_shift, volume, log_gain_flag: t.chance(0.2) }
     }
     fn check(&self, c: &Case) -> Result<Report, Failure> {
         let tier_k = if std::env::var("VERIF_TIER").ok().as_deref() == Some("thorough") { 257 } else { 65 };
-        let mut m = measure_pulse(&c.cepstrum, 0, false, c.rate, c.alpha, 0.0, c.volume);
+        let mut m = measure_pulse(&c.cepstrum, 0, c.log_gain_flag, c.rate, c.alpha, 0.0, c.volume);
         for v in m.frame1.iter_mut().chain(m.frame2.iter_mut()) {
             *v /= c.volume;
         }
@@ -174,7 +176,7 @@ impl Prop for MlsaSpectrum {
         let d = c.gain_shift;
         let mut shifted = c.cepstrum.clone();
         shifted[0] += d;
-        let mut m2 = measure_pulse(&shifted, 0, false, c.rate, c.alpha, 0.0, c.volume);
+        let mut m2 = measure_pulse(&shifted, 0, c.log_gain_flag, c.rate, c.alpha, 0.0, c.volume);
         for v in m2.frame1.iter_mut() {
             *v /= c.volume;
         }
@@ -194,6 +196,7 @@ impl Prop for MlsaSpectrum {
         rep.nontrivial = c.target_shape >= 0.5;
         rep.class_if(c.cepstrum[0] < -10.0, "very-small-gain");
         rep.class_if(c.volume != 1.0, "non-default-volume");
+        rep.class_if(c.log_gain_flag, "log-gain-flag-set-on-a-mel-cepstral-vocoder");
         rep.class_if(c.alpha == 0.0, "alpha=0");
         rep.class_if(c.cepstrum.len() <= 3, "len<=3");
         rep.class_if(c.cepstrum.len() >= 35, "len>=35");
